@@ -92,6 +92,7 @@ type Interp struct {
 	TraceFns   map[string]bool
 
 	Params     map[string]interface{}
+	Concrete   map[string]uint64 // nondet names fixed to concrete values (selftest)
 	OpenKnown  map[string]bool // known-finding ids that are listed as open
 	MapOrder   string          // "asc", "desc", "all"
 	MaxPaths   int
